@@ -1,9 +1,12 @@
 #!/bin/bash
-# run every check (quick by default) on the current /repo; print one line per check
-cd /verif
+# run every check (quick by default) on the current /repo (or on $VP_RUN_REPO under `vp run --with-repo`); print one line per check
+cd "$(dirname "$0")/.."
 T=${1:-quick}
-git -C /repo diff --quiet || { echo "/repo is dirty"; exit 2; }
+export VERIF_REPO=${VP_RUN_REPO:-${VERIF_REPO:-/repo}}
+git -C $VERIF_REPO diff --quiet || { echo "$VERIF_REPO is dirty"; exit 2; }
+[ -d build ] || python3 tools/setup.py > /dev/null 2>&1
 for i in 01 02 03 04 05 06 07 08 09 10 11 12 13 14 15 16 17 18 19 20; do
-  ./check C$i --tier $T > /tmp/all_C$i.log 2>&1; rc=$?
-  echo "C$i exit=$rc $(tail -1 /tmp/all_C$i.log) $(grep -c '^VIOLATION' /tmp/all_C$i.log) viol"
+  /usr/bin/time -f %es -o /tmp/all_time.$$ ./check C$i --tier $T > /tmp/all_${T}_C$i.log 2>&1; rc=$?
+  echo "C$i exit=$rc $(tail -1 /tmp/all_${T}_C$i.log) $(grep -c '^VIOLATION' /tmp/all_${T}_C$i.log) viol" | tee -a all_$T.txt
 done
+echo done >> all_$T.txt
